@@ -163,7 +163,16 @@ func execOp(line string) {
 	case "swrite":
 		emit(line, safely(func() string { return implSwrite(t) }))
 
-	case "evcheck", "fancheck", "closecheck", "stallcheck", "hbcheck", "srcheck", "lifecheck":
+	case "lifecheck":
+		// the answer is the observed trace: the scenario is re-run
+		restore := lifeSetup()
+		emit(line, safely(func() string { return implLifecheck(t) }))
+		restore()
+
+	case "tnc":
+		emit(line, safely(func() string { return implTnc(t) }))
+
+	case "evcheck", "fancheck", "closecheck", "stallcheck", "hbcheck", "srcheck":
 		// observation-carrying ops: the observation was made when the scenario ran; on replay the stored observation
 		// is re-judged by the model (the scenario itself is re-run by the generator, see DESIGN.md §5)
 		emit(line, "ok")
